@@ -28,7 +28,11 @@ SkipBodies(w) ==
     [] w = WTSlice -> {UV(0)} \cup {UV(1) \o Item(n) : n \in ItemLens} \cup {UV(2) \o Item(n) \o Item(m) : n \in ItemLens, m \in ItemLens}
 Huge == {<<128, 128, 128, 128, 8>>, <<128, 128, 128, 128, 128, 32>>, <<128, 128, 128, 128, 128, 128, 128, 128, 128, 1>>,
          <<255, 255, 255, 255, 255, 255, 255, 255, 255, 1>>, <<255, 255, 255, 255, 255, 255, 255, 255, 255, 2>>,
-         <<128, 128, 128, 128, 128, 128, 128, 128, 128, 128, 1>>, <<255>>, <<128, 0>>}
+         <<128, 128, 128, 128, 128, 128, 128, 128, 128, 128, 1>>, <<255>>, <<128, 0>>,
+         \* around 2^63 and just below 2^64, where signed arithmetic on a length wraps
+         <<255, 255, 255, 255, 255, 255, 255, 255, 127>>, <<247, 255, 255, 255, 255, 255, 255, 255, 127>>,
+         <<245, 255, 255, 255, 255, 255, 255, 255, 255, 1>>, <<246, 255, 255, 255, 255, 255, 255, 255, 255, 1>>,
+         <<254, 255, 255, 255, 255, 255, 255, 255, 255, 1>>, <<255, 255, 255, 255, 7>>, <<255, 255, 255, 255, 15>>}
 Cuts(b) == IF Len(b) <= 12 THEN 0..(Len(b) - 1) ELSE {0, 1, 2, 3, Len(b) - 2, Len(b) - 1}
 Mutations(w, b) ==
   {b, b \o <<255>>, b \o <<0, 0, 0>>} \cup {Take(b, k) : k \in Cuts(b)}
